@@ -260,8 +260,11 @@ class Gen:
             e = f"({e}) * {r.choice([2, 3, -2])}"
         elif x < 0.40:
             e = f"{r.choice([2, 3])} * ({e})"  # the literal on the left
-        if r.random() < 0.2:
+        x2 = r.random()
+        if x2 < 0.2:
             e = f"-({e})"
+        elif x2 < 0.25:
+            e = f"+({e})"
         return e
 
 
@@ -348,7 +351,7 @@ class Prop:
                 "domain": "float" if r.random() < 0.3 else "tracer", "sizes": [r.choice([1, 2]) for _ in range(3)],
                 # the last diagonal block is kept as a LinearOperator; only for programs whose declared products have two factors
                 # (like the shipped algorithms): an intermediate of a longer plain product would add operators and matrices
-                "linop_mask": True if (r.random() < 0.5 and all(p.count("@") == 1 for p in products) and '" * "' not in src) else None,
+                "linop_mask": True if (r.random() < 0.5 and all(p.count("@") == 1 for p in products) and '" * "' not in src and "+(" not in src) else None,  # (SciPy operators know neither * between operators nor unary plus)
                 "scaled_op": r.random() < 0.5,
                 "inputs": {n: {"pz": r.choice([0.0, 0.2, 0.5]), "zero0": r.random() < 0.3, "iseed": r.randrange(1 << 30)} for n in inputs},
                 "flag": r.random() < 0.5, "flags": [r.random() < 0.5 for _ in range(nb)]}
